@@ -435,3 +435,35 @@ def lazy_iterator_reread(func: FuncInfo):
         if isinstance(n, ast.Name) and isinstance(n.ctx, ast.Load) and n.id in names and id(n) not in in_next:
             reads.setdefault(n.id, []).append(n.lineno)
     return [(k, v[1]) for k, v in sorted(reads.items()) if len(v) >= 2]
+
+
+def raw_flag_identity_tests(prog: Program, ctx: str, func: FuncInfo, ps=None):
+    """[(condition, flag expression, why)]: decisions of `func` taken by IDENTITY with True / False (`x is True`, `x is not False`,
+    ...) on a flag that is whatever the caller passed - a parameter, or a field the constructor fills from a parameter without bool() -
+    so that a truthy non-bool (1, "yes") or a falsy one (0, None) takes the other branch than its truth value says."""
+    out = []
+    init = prog.cls(ctx).find_method("__init__") if ctx else None
+    raw_fields = set()
+    if init is not None:
+        for p in paths(prog, ctx, init, inline="deep"):
+            if p.exit[0] != "return":
+                continue
+            last = {}
+            for e in p.events:
+                if e.kind == "setfield" and e.base == SELF:
+                    last[e.name] = strip_epochs(e.value)
+            for k, v in last.items():
+                if v[0] == "p":
+                    raw_fields.add(k)
+                elif k in raw_fields and v[0] != "p":
+                    pass
+    for p in (ps if ps is not None else paths(prog, ctx, func)):
+        for c in p.conds:
+            a = strip_epochs(c.atom)
+            if a[0] == "cmp" and a[1] in ("is", "isnot") and a[3][0] == "c" and isinstance(a[3][1], bool):
+                x = a[2]
+                if x[0] == "p":
+                    out.append((c, x, f"the parameter {x[1]}"))
+                elif x[0] == "f" and x[1] == SELF and x[2] in raw_fields:
+                    out.append((c, x, f"self.{x[2]}, which the constructor stores as passed"))
+    return out
